@@ -158,6 +158,30 @@ impl<T> M2Array<T> {
     }
 }
 
+/// Largest number of elements that is reserved up front for an array whose length comes from
+/// the file. Longer arrays still parse (the vector grows as elements arrive); a hostile count
+/// simply runs into the end of the stream instead of reserving gigabytes first.
+pub const MAX_PREALLOC_ELEMENTS: usize = 4096;
+
+/// Capacity to reserve for `count` elements announced by (untrusted) file data.
+pub fn bounded_capacity(count: usize) -> usize {
+    count.min(MAX_PREALLOC_ELEMENTS)
+}
+
+/// Read exactly `len` bytes. `len` usually derives from counts or sizes stored in the file, so
+/// nothing is allocated up front: the buffer grows with the bytes that are really there.
+pub fn read_exact_vec<R: Read>(reader: &mut R, len: usize) -> Result<Vec<u8>> {
+    let mut data = Vec::new();
+    reader.by_ref().take(len as u64).read_to_end(&mut data)?;
+    if data.len() != len {
+        return Err(M2Error::Io(std::io::Error::new(
+            std::io::ErrorKind::UnexpectedEof,
+            format!("expected {len} bytes, found {}", data.len()),
+        )));
+    }
+    Ok(data)
+}
+
 /// Reads data at an array reference location
 pub fn read_array<T, R, F>(reader: &mut R, array: &M2Array<T>, parse_fn: F) -> Result<Vec<T>>
 where
@@ -174,7 +198,7 @@ where
         .map_err(M2Error::Io)?;
 
     // Read each element
-    let mut result = Vec::with_capacity(array.count as usize);
+    let mut result = Vec::with_capacity(bounded_capacity(array.count as usize));
     for _ in 0..array.count {
         result.push(parse_fn(reader)?);
     }
@@ -198,11 +222,8 @@ pub fn read_raw_bytes<R: Read + Seek>(
         .map_err(M2Error::Io)?;
 
     // Read raw bytes
-    let total_bytes = array.count as usize * element_size;
-    let mut data = vec![0u8; total_bytes];
-    reader.read_exact(&mut data).map_err(M2Error::Io)?;
-
-    Ok(data)
+    let total_bytes = (array.count as usize).saturating_mul(element_size);
+    read_exact_vec(reader, total_bytes)
 }
 
 /// A vector in 3D space
@@ -320,8 +341,7 @@ impl FixedString {
 
     /// Parse a fixed-width string from a reader
     pub fn parse<R: Read + Seek>(reader: &mut R, len: usize) -> Result<Self> {
-        let mut data = vec![0u8; len];
-        reader.read_exact(&mut data)?;
+        let mut data = read_exact_vec(reader, len)?;
 
         // Find null terminator
         let null_pos = data.iter().position(|&b| b == 0).unwrap_or(len);
